@@ -416,9 +416,30 @@ def _guards(chk, src):
     if not bad:
         chk.ok("inconsistent-inputs-are-refused", fc.qname, f"{n} orderings of (Qm, m, Qref) x quark x nf_ref", how="exhaustive PE")
     chk.floor("guard cases", n, 30)
-    t = " ".join(ast.unparse(fc.node).split())
-    chk.decide("return np.sort(masses)" in t and "raise ValueError('MSbar masses are not to be sorted')" in t, "result-is-sorted", fc.qname,
-               "compute no longer returns sorted masses / refuses unsorted solutions", where=fc.where)
+    # the result is sorted, and a solution that is not in quark order is refused (evaluated: all three masses "given at their own
+    # scale", so nothing is solved and the result is the input)
+    for label, vals, want_raise in (("in quark order", (2, 5, 170), False), ("bottom below charm", (5, 2, 170), True), ("top below bottom", (2, 170, 5), True)):
+        pe = PE(src)
+
+        class Ref(Opaque):
+            def __init__(self, value, scale):
+                self.value, self.scale = value, scale
+
+        ms = Opaque()
+        for h, v in zip("cbt", vals):
+            setattr(ms, h, Ref(Fraction(v), Fraction(v)))
+        cp = Opaque()
+        cp.ref = (Fraction(91), 5)
+        try:
+            r = pe.call(fc.qname, [ms, cp, (3, 0), "exact", [Fraction(1)] * 3], {})
+            got = [x for x in (r.flat() if isinstance(r, Arr) else list(r))]
+            ok = (not want_raise) and got == [Fraction(v) ** 2 for v in sorted(vals)]
+            msg = f"returns {[str(x) for x in got]}"
+        except PERaise as e:
+            ok = want_raise and "ValueError" in str(e)
+            msg = f"raises {e}"
+        chk.decide(ok, "result-is-sorted", fc.qname, f"masses {label} {vals}: {msg}; required: the squared masses in increasing order, and a "
+                   f"ValueError when they are not in quark order", where=fc.where, instance=label, how="PE")
 
 
 def _patches(chk, src):
